@@ -29,8 +29,8 @@ Fixpoint run_seq (s : state) (l : list kstep) : bool :=
   | [] => true
   | KS c obs mut :: l' =>
       let d := target s c in
-      let '(s1, o) := step s c in
-      let s2 := fst (step s1 (CDrain d)) in
+      let '(s1, o) := step true s c in
+      let s2 := fst (step true s1 (CDrain d)) in
       let grew := negb (Nat.eqb (List.length (mlog (stor s2))) (List.length (mlog (stor s)))) in
       ((outcome_code o =? obs)%N || outcome_eqb o Unspecified) && implb mut grew && run_seq s2 l'
   end.
@@ -59,8 +59,8 @@ Fixpoint first_bad (s : state) (l : list kstep) (i : N) : option (N * N) :=
   | [] => None
   | KS c obs mut :: l' =>
       let d := target s c in
-      let '(s1, o) := step s c in
-      let s2 := fst (step s1 (CDrain d)) in
+      let '(s1, o) := step true s c in
+      let s2 := fst (step true s1 (CDrain d)) in
       let grew := negb (Nat.eqb (List.length (mlog (stor s2))) (List.length (mlog (stor s)))) in
       if ((outcome_code o =? obs)%N || outcome_eqb o Unspecified) && implb mut grew
       then first_bad s2 l' (i + 1)%N else Some (i, outcome_code o)
